@@ -143,6 +143,27 @@ def build_fact_dependents(files):
                 raise CheckError("proof obligation no longer checks against the facts regenerated from /repo: %s\n%s" % (f, p.stdout[-1500:]))
 
 
+def check_fact_props(res, prop_file, what):
+    """Props/<prop_file>.v states facts regenerated from /repo's source text (gen/RepoFacts.v).  Returns None when it checks,
+    else the error text: the caller reports `no-failing-input-found` naming it unless one of its streams exhibits a failing input."""
+    name = "Props/%s.v against the facts regenerated from /repo (%s)" % (prop_file, what)
+    res.obligations.append(name)
+    try:
+        build_fact_dependents([])
+        ths, rep = check_props(prop_file)
+        res.obligations += ths
+        res.discharged += ths + [name]
+        return None
+    except CheckError as e:
+        return str(e)
+
+
+def report_fact_failure(res, prop_file, err, what):
+    if err and not res.violations:
+        res.violation("no-failing-input-found", "Props/%s.v no longer checks against the facts regenerated from /repo (%s): %s" % (prop_file, what, err[-900:]),
+                      {"theorem_file": "coq/Props/%s.v" % prop_file})
+
+
 def check_props(prop_file):
     """Compile Props/<prop_file>.v on its own, capture Print Assumptions output.
     Returns (theorems, assumptions_report) or raises CheckError."""
